@@ -3,7 +3,6 @@ package c20
 import (
 	"encoding/json"
 	"fmt"
-	"os"
 	"reflect"
 	"testing"
 
@@ -246,11 +245,11 @@ func err2nil(_ string, _ tenant.Metadata, err error) bool { return err == nil }
 // TestReplayTenant: spec -> code over the universe Tenant.tla enumerated ($VERIF_IN).
 // VERIF_CORRUPT=n perturbs the expected outcome of the n-th case (binding self-test).
 func TestReplayTenant(t *testing.T) {
-	in := os.Getenv("VERIF_IN")
+	in := envFor("VERIF_IN", "TENANT")
 	if in == "" {
 		t.Skip("VERIF_IN not set")
 	}
-	corrupt := abs.EnvInt("VERIF_CORRUPT", 0)
+	corrupt := envIntFor("VERIF_CORRUPT", "TENANT")
 	res := &abs.Result{}
 	fams := map[string]int{}
 	accepted := map[string]int{}
@@ -293,5 +292,5 @@ func TestReplayTenant(t *testing.T) {
 	}
 	res.AddExtra("tenant_cases_by_family", fams)
 	res.AddExtra("tenant_outcomes", accepted)
-	res.Write(t)
+	writeResult(t, res, "tenant_replay")
 }
